@@ -1,4 +1,5 @@
 pub mod c07;
+pub mod c09;
 pub mod c19;
 pub mod c20;
 pub mod common;
